@@ -1231,7 +1231,8 @@ func corpus(out *bufio.Writer) {
 	// the last double below tol / the first above it (one operand 0, so that a-b is exact): "perturbed
 	// by less than tol" is true up to pred(tol), "displaced by more than tol" from succ(tol) on
 	for _, tol := range []float64{0.5, 0.1, 1.0 / (1 << 30), 3, 1 << 30,
-		math.Ldexp(1, -52), math.Ldexp(1, -53), 1e-16, math.Ldexp(1, -60), 1e-19, math.Ldexp(1, -900), math.Ldexp(1, 900)} {
+		math.Ldexp(1, -52), math.Ldexp(1, -53), 1e-16, math.Ldexp(1, -60), 1e-19, math.Ldexp(1, -900), math.Ldexp(1, 900),
+		math.Ldexp(1, -1060), math.Ldexp(1, 1000)} {
 		lo, hi := math.Nextafter(tol, 0), math.Nextafter(tol, math.Inf(1))
 		emit(out, "perturb:T", tol, P(0, 0), P(lo, 0))
 		emit(out, "perturb:T", tol, P(0, -lo), P(0, 0))
@@ -1330,7 +1331,9 @@ func gen(seed uint64, tier string) {
 	// far below the float64 resolution of 1 (2^-52) and far above its integer range (2^53): "a positive
 	// tolerance" has no scale; dyadic scaling keeps every a-b exact down to 2^-906 (subnormals start at 2^-1022)
 	dyx := []float64{math.Ldexp(1, -53), math.Ldexp(1, -60), math.Ldexp(1, -100), math.Ldexp(1, -500), math.Ldexp(1, -900),
-		math.Ldexp(1, 60), math.Ldexp(1, 500), math.Ldexp(1, 900)}
+		math.Ldexp(1, 60), math.Ldexp(1, 500), math.Ldexp(1, 900),
+		// tol/64 = 2^-1066 is subnormal (a multiple of 2^-1074: still exact); 2^1000 * 2^16 stays below 2^1024
+		math.Ldexp(1, -1060), math.Ldexp(1, 1000)}
 	ndx := []float64{1e-16, 1e-19, 1e-30, 1e-200, 1e25}
 	bigCalls := 0
 	for it := 0; it < n; it++ {
